@@ -346,7 +346,18 @@ func TestVerif_C02(t *testing.T) {
 	// 371-record capacity of the dense name index, three shapes each
 	for _, tg := range targets {
 		for _, L := range []int{9, 50, 371, 372, 400} {
-			for _, shape := range []string{"grow-only", "grow-then-delete-every-second", "overwrite-each-with-another-size", "delete-all-then-write-again", "delete-all-reopen-then-write-again"} {
+			for _, shape0 := range []string{"grow-only", "grow-then-delete-every-second", "overwrite-each-with-another-size", "delete-all-then-write-again", "delete-all-reopen-then-write-again",
+				// the same under every other rebalancing mode of the writer (each has its own
+				// deletion path in the name index)
+				"grow-then-delete-every-second@DisableRebalancing", "grow-then-delete-every-second@EnableLazyRebalancing", "grow-then-delete-every-second@EnableIncrementalRebalancing",
+				"delete-all-then-write-again@DisableRebalancing", "delete-all-then-write-again@EnableLazyRebalancing", "delete-all-then-write-again@EnableIncrementalRebalancing"} {
+				shape, mode := shape0, ""
+				if i := strings.IndexByte(shape0, '@'); i >= 0 {
+					shape, mode = shape0[:i], shape0[i+1:]
+					if L > 50 || tg.kind != "dataset" {
+						continue
+					}
+				}
 				if tg.kind == "group" && shape != "grow-only" && shape != "overwrite-each-with-another-size" {
 					continue // no delete on groups
 				}
@@ -358,6 +369,9 @@ func TestVerif_C02(t *testing.T) {
 					h = append(h, vfOp{Op: "mkds", Path: tg.path, Type: "f64", Dims: []uint64{3}})
 				} else {
 					h = append(h, vfOp{Op: "mkgroup", Path: tg.path})
+				}
+				if mode != "" {
+					h = append(h, vfOp{Op: "toggle", Bad: mode})
 				}
 				np := len(h)
 				for i := 0; i < L; i++ {
@@ -384,7 +398,7 @@ func TestVerif_C02(t *testing.T) {
 				}
 				ex := vfRun(dir, nil, h, true)
 				r.Transitions(1)
-				name := fmt.Sprintf("long/%s/%s/L=%d", tg.kind, shape, L)
+				name := fmt.Sprintf("long/%s/%s/L=%d", tg.kind, shape0, L)
 				r.Case(name)
 				model := map[string]string{}
 				accepted := 0
